@@ -193,6 +193,21 @@ class WrapperModel:
         elif isinstance(a, ast.Expr) and isinstance(a.value, ast.Call) and isinstance(a.value.func, ast.Attribute) \
             and u(a.value.func.value) == e.id and a.value.func.attr in ('extend', 'update') and a.value.args:
           out |= self.nameset(a.value.args[0], seen | {e.id})
+      # for v in SRC: [if v not in EXC:] X.append(v)
+      for lp in walk_local(f.node):
+        if isinstance(lp, ast.For) and isinstance(lp.target, ast.Name) and len(lp.body) == 1 and not lp.orelse:
+          inner, exc, okc = lp.body[0], None, True
+          while isinstance(inner, ast.If) and not inner.orelse and len(inner.body) == 1:
+            t = inner.test
+            if isinstance(t, ast.Compare) and len(t.ops) == 1 and isinstance(t.ops[0], ast.NotIn) and u(t.left) == lp.target.id and exc is None:
+              exc = u(t.comparators[0])
+            else:
+              okc = False
+            inner = inner.body[0]
+          if okc and isinstance(inner, ast.Expr) and isinstance(inner.value, ast.Call) and isinstance(inner.value.func, ast.Attribute) \
+              and u(inner.value.func.value) == e.id and inner.value.func.attr in ('append', 'add') and len(inner.value.args) == 1 \
+              and u(inner.value.args[0]) == lp.target.id:
+            out |= {(src, exc if x is None else x) for src, x in self.nameset(lp.iter, seen | {e.id}) if x is None or exc is None}
       return out if found else set()
     if isinstance(e, (ast.ListComp, ast.SetComp, ast.GeneratorExp)) and len(e.generators) == 1:
       gen = e.generators[0]
@@ -207,6 +222,11 @@ class WrapperModel:
       return {(src, exc if x is None else x) for src, x in self.nameset(gen.iter, seen)}
     if isinstance(e, ast.BinOp) and isinstance(e.op, (ast.Add, ast.BitOr)):
       return self.nameset(e.left, seen) | self.nameset(e.right, seen)
+    if isinstance(e, ast.BinOp) and isinstance(e.op, ast.Sub):
+      r = e.right
+      if isinstance(r, ast.Call) and u(r.func) in ('set', 'frozenset') and len(r.args) == 1:
+        r = r.args[0]
+      return {(src, u(r)) for src, x in self.nameset(e.left, seen) if x is None}
     if isinstance(e, ast.Call):
       fn = u(e.func)
       if fn in ('set', 'list', 'tuple', 'sorted', 'frozenset') and len(e.args) == 1:
@@ -218,6 +238,13 @@ class WrapperModel:
         return out
       if isinstance(e.func, ast.Attribute) and e.func.attr == 'keys' and not e.args:
         return self.nameset(e.func.value, seen)
+      if isinstance(e.func, ast.Attribute) and e.func.attr == 'difference' and len(e.args) == 1:
+        return {(src, u(e.args[0]) if x is None else x) for src, x in self.nameset(e.func.value, seen) if x is None or x == u(e.args[0])}
+      if isinstance(e.func, ast.Attribute) and e.func.attr == 'union' and e.args:
+        out = self.nameset(e.func.value, seen)
+        for a in e.args:
+          out |= self.nameset(a, seen)
+        return out
     if isinstance(e, (ast.List, ast.Tuple)) and all(isinstance(x, ast.Starred) for x in e.elts) and e.elts:
       out = set()
       for x in e.elts:
